@@ -55,7 +55,7 @@ pub enum RawOp {
 }
 
 impl RawOp {
-    fn kind(&self) -> &'static str {
+    pub(crate) fn kind(&self) -> &'static str {
         match self {
             RawOp::Create(_) => "create",
             RawOp::Write(..) => "write",
@@ -104,10 +104,10 @@ impl RawCfg {
 }
 
 #[derive(Debug, Clone, Default)]
-struct MRegion {
-    bytes: Vec<u8>,
+pub(crate) struct MRegion {
+    pub(crate) bytes: Vec<u8>,
     /// ever held data or was renamed: must survive flush + reopen.
-    durable: bool,
+    pub(crate) durable: bool,
 }
 
 struct HeldReader {
@@ -118,9 +118,9 @@ struct HeldReader {
 }
 
 pub struct RawSys {
-    dir: PathBuf,
-    db: Option<Database>,
-    model: BTreeMap<u8, MRegion>,
+    pub(crate) dir: PathBuf,
+    pub(crate) db: Option<Database>,
+    pub(crate) model: BTreeMap<u8, MRegion>,
     generation: [u8; 4],
     reader: Option<HeldReader>,
     counters: BTreeMap<&'static str, u64>,
@@ -364,7 +364,7 @@ impl RawSys {
         }
     }
 
-    fn off(&self, n: u8, o: Off) -> usize {
+    pub(crate) fn off(&self, n: u8, o: Off) -> usize {
         let len = self.model.get(&n).map_or(0, |m| m.bytes.len());
         match o {
             Off::Zero => 0,
@@ -374,7 +374,7 @@ impl RawSys {
     }
 
     /// Executes the real operation. Returns Ok(()) / Err(error variant name).
-    fn exec(&mut self, op: &RawOp) -> Result<(), String> {
+    pub(crate) fn exec(&mut self, op: &RawOp) -> Result<(), String> {
         fn e(err: Error) -> String {
             let s = format!("{err:?}");
             s.split([' ', '(', '{']).next().unwrap_or("").to_string()
@@ -470,7 +470,7 @@ impl RawSys {
     }
 
     /// Expected outcome and model update. Returns the expected result.
-    fn model_apply(&mut self, op: &RawOp) -> Result<(), &'static str> {
+    pub(crate) fn model_apply(&mut self, op: &RawOp) -> Result<(), &'static str> {
         let reader_on = self.reader.as_ref().map(|h| h.name);
         match op {
             RawOp::Create(n) => {
